@@ -791,3 +791,11 @@ fire("C13", "log branch: Bell sum starts at the second term", "log-interpolant-d
 silent("C13", "log branch: correct closed forms for the orders 1 to 3",
        ("sub", "cubic.py", "                # Sympy symbols and dictionary of symbols pointing to the derivative values\n",
         "                if deriv_var <= 3:\n                    g = [np.asarray(d, dtype=float) for d in derivs]\n                    poly = g[0] if deriv_var == 1 else g[0] ** 2 + g[1] if deriv_var == 2 else g[0] ** 3 + 3.0 * g[0] * g[1] + g[2]\n                    return interpolated * poly\n                # Sympy symbols and dictionary of symbols pointing to the derivative values\n"))
+
+# ------------------------------------------------------------------------------------------ C18 R5
+fire("C18", "point-by-point route: a chunk that is not full is dropped", "R5.integral-is-product-quadrature/ngrid.MultiDomainGrid.integrate/point-by-point",
+     ("sub", "ngrid.py", "        if not chunk:\n            break\n", "        if len(chunk) < size:\n            break\n"))
+fire("C18", "vectorised route integrates over the first grid instead of the last", "ngrid.MultiDomainGrid.integrate",
+     ("sub", "ngrid.py", "                integral_value += pre_weight * self.grid_list[-1].integrate(np.array(values))\n", "                integral_value += pre_weight * self.grid_list[0].integrate(np.array(values))\n"))
+silent("C18", "point-by-point route: chunk sums collected and added at the end",
+       ("sub", "ngrid.py", "                integral_value += np.sum(values_array * weights_array)\n", "                integral_value = integral_value + np.dot(values_array, weights_array)\n"))
